@@ -137,7 +137,7 @@ type engCase struct {
 	legacy bool // signed with a hash type without the FORKID bit: validated without the FORKID flag
 }
 
-func engineCases(r *rng, n int) []engCase {
+func engineCases(r *rng, n int, long ...bool) []engCase {
 	var cs []engCase
 	for i := 0; i < n; i++ {
 		k := genKey(r)
@@ -148,6 +148,12 @@ func engineCases(r *rng, n int) []engCase {
 		}
 		for j := 0; j < 1+r.n(3); j++ {
 			tx.Outputs = append(tx.Outputs, &bt.Output{Satoshis: uint64(r.n(900)), LockingScript: scr(p2pkhOf(genKey(r)))})
+		}
+		if len(long) > 0 && long[0] {
+			// a data output longer than the decoder's 64 KiB read chunk, different in every transaction: each signature
+			// check clones the transaction, i.e. serialises and re-reads every script
+			ds := append([]byte{0x00, 0x6a}, pushOf(r.bytes(65537+r.n(40000)))...)
+			tx.Outputs = append(tx.Outputs, &bt.Output{Satoshis: 0, LockingScript: scr(ds)})
 		}
 		pos := r.n(nIn)
 		hts := []sighash.Flag{0x41, 0x42, 0x43, 0xc1, 0xc3}
@@ -243,8 +249,11 @@ func raceChild(scenario string, seed uint64, g, procs int) string {
 				}
 			}()
 		}
-	case "engine":
-		cases := engineCases(r, 24)
+	case "engine", "enginelong":
+		cases := engineCases(r, 24, false)
+		if parts[0] == "enginelong" {
+			cases = engineCases(r, 8, true)
+		}
 		eng := interpreter.NewEngine()
 		want := make([]string, len(cases))
 		for i, c := range cases {
@@ -458,6 +467,7 @@ func genC18(e *emitter, tier string, seed uint64) {
 		run("engine", c[0], c[1])
 		run("engine", c[0]*2, c[1])
 		run("engine", c[0]*2, c[1]*2)
+		run("enginelong", c[0], c[1])
 		run("scripts", c[0], c[1])
 	}
 }
